@@ -35,6 +35,19 @@ DEFAULT_WEIGHTS = dict(ins=6, data=5, label=4, block=2, scope=1.2, macro=1.0, ca
 MAG_VALUES = {"b": [0, 1, 0x10, 0x7F, 0x80, 0xFF], "w": [0x100, 0x1234, 0x8000, 0xFFFF], "l": [0x10000, 0x123456, 0x7E0000, 0xFFFFFF]}
 
 
+def _nested_lists(st: dict) -> list[list]:
+    from vf.gen.ir import children
+
+    out = []
+    for sub in children(st):
+        if st["k"] == "macro":
+            continue
+        out.append(sub)
+        for inner in sub:
+            out += _nested_lists(inner)
+    return out
+
+
 class Frame:
     """What the generator knows about one lexical scope while it is being written."""
 
@@ -298,7 +311,8 @@ class Gen:
             if fr.in_macro or fr.in_loop:
                 return None   # one start symbol per file
             fname = f"bin{len(self.files)}.bin"
-            self.files[fname] = r.randbytes(r.choice([0, 1, 2, 7, 64, 300]))
+            n = r.choice([0, 1, 2, 7, 64, 300]) if r.random() < 0.9 else r.choice([0x8000, 0x9001, 0x10000, 0x12345, 0x21000])   # sometimes more than a bank window
+            self.files[fname] = (r.randbytes(997) * (n // 997 + 1))[:n]
             base = fname.replace(".", "_")
             fr.labels_planned.append(base)
             fr.labels_done.append(base)
@@ -396,7 +410,10 @@ class Gen:
         child.consts = [p for p in ps if p not in blockparams]
         body = self.body(child, depth + 1, r.randint(1, 6))
         for p in blockparams:
-            body.insert(r.randint(0, len(body)), {"k": "splice", "n": p})
+            # anywhere in the body, also inside nested blocks / loops / conditionals of the body
+            lists = [body] + [sub for st in body for sub in _nested_lists(st)]
+            tgt = r.choice(lists)
+            tgt.insert(r.randint(0, len(tgt)), {"k": "splice", "n": p})
         self.macros.append({"n": nm, "ps": ps, "blockparams": blockparams})
         return {"k": "macro", "n": nm, "ps": ps, "b": body}
 
